@@ -5,6 +5,7 @@ MC_Reader / Neg_Reader_shared (model checking), Gen_Reader (schedules -> forced 
 the real reader), Trace_Reader (recorded reads / offset_at / metadata -> TLC).
 """
 import concurrent.futures as cf
+import contextlib
 import json
 import os
 import random
@@ -58,7 +59,7 @@ def start_tlc(chk, pool):
 
 
 # ---------------------------------------------------------------------------- requests
-def requests(fsx, rnd, nrand, limit, maxn):
+def requests(fsx, rnd, nrand, limit, maxn, ntypes=2):
     """(o, n) histories for one file set: frame / file boundaries, n = 0, refusals,
     repeated, overlapping and adjacent requests, seeded random ones."""
     L = fsx.outlen
@@ -70,7 +71,8 @@ def requests(fsx, rnd, nrand, limit, maxn):
             for n in (0, 1, 2, 3, 5):
                 if n <= maxn:
                     sysreq.append((b - k, n))
-    refus = [(-1, 1), (0, -1), (-1, -1), (L, 1), (L + 1, 0), (L - 1, 2), (0, L + 1), (L, 0), (0, 0), (-2, 0)]
+    refus = [(-1, 1), (0, -1), (-1, -1), (L, 1), (L + 1, 0), (L - 1, 2), (0, L + 1), (L, 0), (0, 0), (-2, 0),
+             (L + 2, 0), (L + 1000, 0), (10 * L + 7, 0), (L, 0), (2 * L, 1)]
     o = rnd.randrange(0, max(1, L - 8))
     m = min(maxn, 4)
     hist = [(o, m), (o + 1, m), (o, m), (o + m, max(m - 1, 1)), (o, m), (o, 2 * m - 1 if 2 * m - 1 <= maxn else m), (o, m)]
@@ -80,7 +82,7 @@ def requests(fsx, rnd, nrand, limit, maxn):
         rand.append((rnd.randrange(0, L - n + 1), n))
     if len(sysreq) > limit:
         sysreq = rnd.sample(sysreq, limit)
-    return refus + hist + sysreq + rand + narrow_requests(fsx, maxn)
+    return refus + hist + sysreq + rand + narrow_requests(fsx, maxn, rnd, ntypes)
 
 
 INT_TYPES = ("int", "int64", "int32", "int16", "int8", "uint8", "uint16", "uint32", "uint64", "array0d_int64", "array0d_uint8",
@@ -110,13 +112,14 @@ def pick_type(o, n, j):
     return c[j % len(c)]
 
 
-def narrow_requests(fsx, maxn):
+def narrow_requests(fsx, maxn, rnd, ntypes=2):
     """(o, n, type): offsets and counts that fit the fixed-width type while o + n, 2*o or 2*n do not -
     an integer is an integer, the expectation is that of the Python ints"""
     L = fsx.outlen
     per = fsx.A * fsx.B * (3 if fsx.mode == "direct" else 1)
     out = []
-    for t, M in (("int8", 127), ("uint8", 255), ("int16", 32767), ("uint16", 65535), ("array0d_uint8", 255)):
+    kinds = [("int8", 127), ("uint8", 255), ("int16", 32767), ("uint16", 65535), ("array0d_uint8", 255)]
+    for t, M in rnd.sample(kinds, ntypes):          # every file set gets some of the types, all sets together all of them
         for o, n in ((M - 1, 2), (M, M), (M // 2 + 1, 2), (M // 2 + 1, M // 2 + 1), (M - maxn, maxn), (M // 4 + 1, M // 4 + 1)):
             inb = o + n <= L
             if inb and n * per > 12000:
@@ -168,10 +171,11 @@ def history_events(chk, cx, fsx, reqs, eid0, dask_every=4):
         at = rq[2] if len(rq) > 2 else (pick_type(o, n, j // 2) if j % 2 == 0 else "int")
         out = rl.do_read(r, typed(o, at), typed(n, at))
         flags = {}
+        inb = o >= 0 and n >= 0 and o + n <= fsx.outlen        # otherwise the specification expects a refusal
+        direct = None
         if out[0] == "ok":
             d = np.asarray(out[1].data)
             pos, cnt = (2 * o, 2 * n) if fsx.real else (o, n)
-            inb = o >= 0 and n >= 0 and o + n <= fsx.outlen        # otherwise the specification expects a refusal
             direct = fsx.direct(pos, cnt) if inb and (fsx.mode == "direct" or j % 5 == 0) else None
             if fsx.raw is not None and inb:
                 flags["eq_written"] = arrays_equal(rl, fsx, d, rl.expected_post(fsx, fsx.raw[pos:pos + cnt]))
@@ -199,9 +203,23 @@ def history_events(chk, cx, fsx, reqs, eid0, dask_every=4):
         eager = np.array(out[1].data, copy=True) if out[0] == "ok" else None      # before anything modifies the result
         if out[0] == "ok" and not inb:
             continue
-        if out[0] == "ok" and n > 0 and j % 3 == 0:
+        if out[0] == "ok" and n > 0 and j % 4 == 0:
             evs += mutation_steps(cx, fsx, r, o, n, out, j, eid0 + len(evs))
-        if out[0] == "ok" and j % dask_every == 1 % dask_every:
+        if out[0] != "ok" and (j % dask_every == 1 % dask_every or (n == 0 and o >= fsx.outlen)):
+            # a request the eager read refuses (or fails): the Dask read must do the same - when it is
+            # called or at the latest when it is computed
+            try:
+                zd = r.dask_read(typed(o, at), typed(n, at)) if j % 2 else r.read(typed(o, at), typed(n, at), use_dask=True)
+                arr = zd.data.compute()
+                ev = rl.read_event(fsx, o, n, ("ok", _Computed(arr, zd.start_time, zd.sample_rate)), eid=eid0 + len(evs), how="dask",
+                                   flags={"dask_refuses_like_eager": False}, max_elems=40000)
+            except Exception as e:  # noqa
+                ev = rl.read_event(fsx, o, n, ("exc", rl.status_of(e) + ": " + str(e)[:100]), eid=eid0 + len(evs), how="dask")
+            ev["chunks"] = "None"
+            ev["argtype"] = at
+            evs.append(ev)
+            cx.counts["dask_refusals"] = cx.counts.get("dask_refusals", 0) + 1
+        if out[0] == "ok" and (j % dask_every == 1 % dask_every or (n == 0 and o >= fsx.outlen)):
             # Dask read: lazy (no file opened while the graph is built), equal to the eager read bitwise
             c0 = rl.opens()
             ck = rq[3] if len(rq) > 3 else chunk_layout(cx.counts["dask"], n, d.shape[1], d.shape[2])
@@ -289,7 +307,7 @@ def mutation_steps(cx, fsx, r, o, n, out, j, eid0):
     return evs
 
 
-def offset_events(chk, cx, fsx, ks, eid0, pert_every=3):
+def offset_events(chk, cx, fsx, ks, eid0, pert_every=3, scale_every=3):
     """offset_at(time_at(k)) through absolute and relative times, perturbed times, out of range."""
     import astropy.units as u
     rl = cx.rl
@@ -304,12 +322,27 @@ def offset_events(chk, cx, fsx, ks, eid0, pert_every=3):
             got = {"st": "ok", "k": int(r.offset_at(t))}
         except Exception as e:  # noqa
             got = {"st": rl.status_of(e), "k": 0}
+        inside = "n/a"
+        if via.startswith("abs"):
+            try:
+                inside = "yes" if bool(r.contains(t)) else "no"
+            except Exception as e:  # noqa
+                inside = rl.status_of(e)
         evs.append({"id": eid0 + len(evs), "ev": "offset", "key": fsx.key, "len": L, "rate": rl.exact.rat(rate), "k": int(k),
-                    "via": via, "pert": pert, "d": rl.exact.rat(d), "got": got})
+                    "via": via, "pert": pert, "d": rl.exact.rat(d), "got": got, "inside": inside})
 
+    scales = ["tai", "tt", "utc", "tdb"]
     for j, k in enumerate(ks):
         t = r.time_at(k)
         one(k, "abs", 0, t, rl.seconds_between(t, r.start_time))
+        if j % scale_every == 0 or k in (-1, 0, L - 1, L, L + 1):
+            # the same instant expressed on another time scale; elapsed time from astropy's own t - start
+            sc = scales[(j // max(1, scale_every) + k) % len(scales)]
+            ts = getattr(t, sc)
+            one(k, "abs:" + sc, 0, ts, rl.seconds_between(ts, r.start_time))
+            if j % (3 * scale_every) == 0:
+                t3 = getattr(t + 0.3 / r.sample_rate, sc)
+                one(k, "abs:" + sc, 3, t3, rl.seconds_between(t3, r.start_time))
         un = units[j % len(units)]
         q = r.time_at(k, unit=un)
         one(k, "rel:" + un.to_string(), 0, q, Fraction(float(q.value)) * Fraction(un.to(u.ns)) / 10 ** 9)
@@ -326,12 +359,22 @@ def meta_event(cx, fsx, eid):
     import numpy as np
     import astropy.units as u
     rl = cx.rl
+    from astropy.time import Time
     r = fsx.reader
     z = r.read(0, 1)
-    with fsx.open() as fh:
+    fac, shift = fsx.assigned or (1, 0)         # metadata assigned after construction: judged against the NEW values
+    if fsx.memory:
+        start = rl.T0 + shift * u.s if shift else rl.T0
+        hdr = {"rate": rl.exact.rat(2000 * fac), "len": fsx.rawlen, "start": rl.exact.rat(rl.days(start)), "freq": rl.exact.rat(0),
+               "bw": rl.exact.rat(1), "bwsign": 1, "nchan": 1, "poln": ""}
+    with (fsx.open() if not fsx.memory else contextlib.nullcontext()) as fh:
+        if fsx.memory:
+            return _meta(cx, fsx, eid, r, z, hdr)
         h0 = fh.header0
-        hdr = {"rate": rl.exact.rat(Fraction(float(fh.sample_rate.to_value(u.Hz)))), "len": int(fh.shape[0]),
-               "start": rl.exact.rat(rl.days(fh.start_time)), "freq": rl.exact.rat(0), "bw": rl.exact.rat(1), "bwsign": 1,
+        start = Time(fh.start_time, format="isot", precision=9)
+        start = start + shift * u.s if shift else start
+        hdr = {"rate": rl.exact.rat(Fraction(float(fh.sample_rate.to_value(u.Hz))) * fac), "len": int(fh.shape[0]),
+               "start": rl.exact.rat(rl.days(start)), "freq": rl.exact.rat(0), "bw": rl.exact.rat(1), "bwsign": 1,
                "nchan": 1, "poln": ""}
         if fsx.kind == "guppi":
             hdr.update(freq=rl.exact.rat(Fraction(float(h0["OBSFREQ"])) * 10 ** 6), bw=rl.exact.rat(Fraction(float(h0["OBSBW"])) * 10 ** 6),
@@ -339,6 +382,12 @@ def meta_event(cx, fsx, eid):
         if fsx.kind == "stokes":
             hdr.update(freq=rl.exact.rat(Fraction(float(h0["FREQ"])) * 10 ** 6), bw=rl.exact.rat(Fraction(float(h0["BW"])) * 10 ** 6),
                        bwsign=1 if h0["BW"] > 0 else -1, nchan=int(h0["NCHAN"]), poln="")
+    return _meta(cx, fsx, eid, r, z, hdr)
+
+
+def _meta(cx, fsx, eid, r, z, hdr):
+    import numpy as np
+    rl = cx.rl
     got = {"rate": rl.exact.rat(rl.hz(z.sample_rate)), "len": len(r), "shape": [int(x) for x in r.shape],
            "start": rl.exact.rat(rl.days(r.start_time)), "dtype": str(np.asarray(z.data).dtype), "sigtype": type(z).__name__,
            "cf": rl.exact.rat(0), "cbw": rl.exact.rat(1), "align": "", "pol": ""}
@@ -346,6 +395,20 @@ def meta_event(cx, fsx, eid):
         got.update(cf=rl.exact.rat(rl.hz(z.center_freq)), cbw=rl.exact.rat(rl.hz(z.chan_bw)), align=str(z.freq_align),
                    pol=str(getattr(z, "pol_type", "")))
     return {"id": eid, "ev": "meta", "key": fsx.key, "f": fsx.F(), "hdr": hdr, "got": got}
+
+
+def derived_event(cx, fsx, eid):
+    """dt, time_length, stop_time, time_at(1) against the sample rate / start time the reader reports now"""
+    import astropy.units as u
+    rl = cx.rl
+    r = fsx.reader
+    return {"id": eid, "ev": "derived", "key": fsx.key, "len": len(r), "rate": rl.exact.rat(rl.hz(r.sample_rate)),
+            "dt": rl.exact.rat(Fraction(float(r.dt.to_value(u.s)))), "tl": rl.exact.rat(Fraction(float(r.time_length.to_value(u.s)))),
+            "stop": rl.exact.rat(rl.seconds_between(r.stop_time, r.start_time)),
+            "t1": rl.exact.rat(rl.seconds_between(r.time_at(1), r.start_time)),
+            "t1rel": rl.exact.rat(Fraction(float(r.time_at(1, unit=u.s).value))),
+            "read1": rl.exact.rat(rl.seconds_between(r.read(1, 0).start_time, r.start_time)),
+            "rate_read": rl.exact.rat(rl.hz(r.read(0, 1).sample_rate))}
 
 
 def free_running(chk, cx, sets, nthreads, nreads, eid0):
@@ -402,6 +465,8 @@ def free_running(chk, cx, sets, nthreads, nreads, eid0):
 def find_set(cx, F):
     """written file set whose structure is F scaled by an integer"""
     for fsx in cx.written.values():
+        if fsx.memory or fsx.assigned:
+            continue
         if (fsx.kind, fsx.real, fsx.lsb, fsx.fpf, fsx.nfiles, fsx.A, fsx.B) == \
                 (F["kind"], F["real"], F["lsb"], F["fpf"], F["nfiles"], F["A"], F["B"]) \
                 and fsx.mask == F["mask"] and fsx.spf % F["spf"] == 0:
@@ -569,16 +634,19 @@ def _run(chk, rl, tmp, pool):
     # (1) metadata vs header
     for fsx in allsets:
         events.append(meta_event(cx, fsx, len(events)))
-        cx.counts["meta"] += 1
+        events.append(derived_event(cx, fsx, len(events)))
+        cx.counts["meta"] += 2
     lap("meta")
     # (2) sequential histories (+ Dask reads, adjacency, repeats)
     for fsx in allsets:
         small = fsx.key in cx.samples
-        lim = (400 if th else 70) if not small else (150 if th else 24)
+        lim = (400 if th else 55) if not small else (150 if th else 20)
         if fsx.key == "s_stokes":
             lim = 30 if th else 5
-        reqs = requests(fsx, rnd, nrand=(60 if th else 12) if fsx.key != "s_stokes" else 2, limit=lim,
-                        maxn=cx.maxn.get(fsx.key, 8))
+        if fsx.assigned:
+            lim = lim // 3
+        reqs = requests(fsx, rnd, nrand=((60 if th else 12) if fsx.key != "s_stokes" else 2) // (3 if fsx.assigned else 1), limit=lim,
+                        maxn=cx.maxn.get(fsx.key, 8), ntypes=5 if th else (1 if fsx.assigned else 2))
         events += history_events(chk, cx, fsx, reqs, len(events))
     lap("histories")
     # (3) large reads (whole frames / files): bitwise against the direct baseband read and the written content
@@ -593,7 +661,10 @@ def _run(chk, rl, tmp, pool):
             fb = fsx.spf // (2 if fsx.real else 1)
             ks = sorted(set([-1, 0, 1, 2, fb - 1, fb, fb + 1, fb * fsx.fpf, L // 2, L - 2, L - 1, L, L + 1]
                             + [rnd.randrange(0, L + 1) for _ in range(2500 if th else 40)]))
-        ev = offset_events(chk, cx, fsx, ks, len(events), pert_every=3 if th else 9)
+        if fsx.assigned and not th:
+            ks = [k for i, k in enumerate(ks) if i % 3 == 0 or k in (-1, 0, L, L + 1)]
+        ev = offset_events(chk, cx, fsx, ks, len(events), pert_every=3 if th else 9,
+                           scale_every=1 if (th or fsx.key.startswith("dadaleap")) else 4)
         cx.counts["offset"] += len(ev)
         events += ev
     lap("offsets")
@@ -685,6 +756,8 @@ def _run(chk, rl, tmp, pool):
             key = "%s:%s:%s:%s:%s" % (e["ev"], e["how"], cls, inp, "+".join(failed))
             if e["how"] == "dask" and e["n"] == 0 and e["st"] == "ZeroDivisionError":
                 key = "read:dask:n=0:ZeroDivisionError"
+            if fsx.assigned:
+                key += ":assigned"
             if e.get("argtype", "int") != "int":
                 key += ":args=" + e["argtype"]
             if e["how"] == "dask":
@@ -693,8 +766,13 @@ def _run(chk, rl, tmp, pool):
                           "%s read(%d, %d) on %s: clauses %s fail (status %s, len %s)" % (e["how"], e["o"], e["n"], e["key"], failed, e["st"], e["len"]),
                           {"kind": "read", "fileset": e["key"], "o": e["o"], "n": e["n"], "how": e["how"], "failed": failed,
                            "argtype": e.get("argtype", "int"), "chunks": e.get("chunks", "None")})
+        elif e["ev"] == "derived":
+            chk.violation("derived:%s:%s" % ("assigned" if fsx.assigned else "constructed", "+".join(failed)),
+                          "dt / time_length / stop_time / time_at(1) of %s disagree with its sample_rate and start_time: %s" % (e["key"], failed),
+                          {"kind": "derived", "fileset": e["key"]})
         elif e["ev"] == "offset":
-            chk.violation("offset:%s:%s" % (e["via"].split(":")[0], "+".join(failed)),
+            chk.violation("offset:%s%s:%s" % (e["via"].split(":")[0] if e["via"].startswith("rel") else e["via"], "@assigned" if fsx.assigned else "",
+                                              "+".join(failed)),
                           "offset_at(time_at(%d) %+d/10 sample, %s) on %s returned %r" % (e["k"], e["pert"], e["via"], e["key"], e["got"]),
                           {"kind": "offset", "fileset": e["key"], "k": e["k"], "via": e["via"], "pert": e["pert"]})
         else:
@@ -831,8 +909,10 @@ def replay(doc):
                 else:
                     evs = history_events(chk, cx, fsx, [rq], 0, dask_every=10 ** 9)
             elif c["kind"] == "offset":
-                evs = [e for e in offset_events(chk, cx, fsx, [c["k"]] if c["pert"] else [c["k"], c["k"], c["k"], c["k"]], 0)
+                evs = [e for e in offset_events(chk, cx, fsx, [c["k"]] * 4, 0, pert_every=1, scale_every=1)
                        if e["pert"] == c["pert"] and e["via"].split(":")[0] == c["via"].split(":")[0]]
+            elif c["kind"] == "derived":
+                evs = [derived_event(cx, fsx, 0)]
             else:
                 evs = [meta_event(cx, fsx, 0)]
             rej, _ = rl.validate("Trace_Reader", evs, chk, name="replay")
